@@ -1,6 +1,7 @@
 import UtpVerif.Driver.Pure
 import UtpVerif.Driver.Wire
 import UtpVerif.Driver.Mtu
+import UtpVerif.Driver.TxRing
 /-!
 Line-protocol driver: one op per input line (`<component> <op> args…`), one output line per op.
 The Rust harness (`/verif/harness`) executes the same lines on the real code; `tools/check.py`
@@ -11,6 +12,8 @@ open UtpVerif.Driver UtpVerif.Model
 structure St where
   rtte : Rtte := Rtte.init
   mtu : SegSizes := SegSizes.new true 1500 3
+  tx : TxRing := TxRing.new 16
+  txPos : Nat := 0   -- bytes accepted so far (position-coded payload generator)
 
 def step (st : St) (line : String) : St × String :=
   match toks line with
@@ -18,6 +21,13 @@ def step (st : St) (line : String) : St × String :=
   | "seqnr" :: args => (st, stepSeqNr args)
   | "wire" :: args => (st, stepWire args)
   | "mtu" :: args => let (r, o) := stepMtu st.mtu args; ({ st with mtu := r }, o)
+  | "tx" :: args =>
+    let pos := if args.head? = some "new" then 0 else st.txPos
+    let (r, o) := stepTxRing st.tx pos args
+    let acc := match (o.splitOn " ").head? with
+      | some w => if w.startsWith "ready:" ∧ args.head? = some "writepos" then (w.drop 6).toNat?.getD 0 else 0
+      | none => 0
+    ({ st with tx := r, txPos := pos + acc }, o)
   | "rtte" :: args => let (r, o) := stepRtte st.rtte args; ({ st with rtte := r }, o)
   | _ => (st, "bad-op")
 
